@@ -161,7 +161,8 @@ def finish(ctx_list, prop, tier, seed, t0, known_path, evidence_dir, explanation
                 j = o.to_json()
                 j["config"] = cfg
                 per_rule[o.rule].append(j)
-    for r in sorted(per_rule):
+    own = "R%d." % int(prop[1:]) if prop[1:].isdigit() else "R"
+    for r in sorted(per_rule, key=lambda x: (0 if x.startswith(own) else 1, x)):
         samples.extend(per_rule[r])
     cov = {
         "explanation": explanation,
